@@ -383,6 +383,56 @@ func c07Send(c *Ctx) {
 				fmt.Sprintf("WriteTo(%s, nil, %s)", msg, dst), "WriteTo(buildRA(cfg)#0, nil, dst)", "RA sent to an address other than the requested destination, or not the freshly built RA")
 		}
 	}
+	// suppression is complete: every WriteTo in send happens with ¬UnicastOnly or ¬dst.IsMulticast()
+	// established, or — if send leaves the decision to its callers — every call of send does
+	excluded := func(p *an.Path, upTo ssa.Instruction, dstIs func(*an.Expr) bool) bool {
+		for _, a := range p.Atoms {
+			if a.Cond.IsField("UnicastOnly") && !a.Pos {
+				return true
+			}
+			if a.Cond.Op == an.OpCall && a.Cond.Fn != nil && a.Cond.Fn.String() == "(net/netip.Addr).IsMulticast" && !a.Pos && dstIs(a.Cond.Args[0]) {
+				return true
+			}
+		}
+		return false
+	}
+	sendGuards := true
+	for _, p := range ps {
+		writes := callsOnPath(p, func(cc *ssa.CallCommon) bool { return an.CallIs(cc, PkgSystem, "Conn", "WriteTo") })
+		if len(writes) > 0 && !excluded(p, nil, func(e *an.Expr) bool { return e.Op == an.OpParam }) {
+			sendGuards = false
+		}
+	}
+	if !sendGuards {
+		for _, s := range an.FindCalls(c.srcFuncs(), func(cc *ssa.CallCommon) bool { return an.CallIs(cc, PkgCorerad, "Advertiser", "send") }) {
+			root := s.Fn
+			for root.Parent() != nil {
+				root = root.Parent()
+			}
+			okSite := true
+			nOn := 0
+			for _, cp := range c.pathsO("R-C07-5", root, an.PathOpts{EmitCut: true}) {
+				var dst *an.Expr
+				cp.Instrs(func(in ssa.Instruction) {
+					if ci, ok := in.(ssa.CallInstruction); ok && an.CallIs(ci.Common(), PkgCorerad, "Advertiser", "send") {
+						args := ci.Common().Args
+						dst = cp.Of(args[2])
+					}
+				})
+				if dst == nil {
+					continue
+				}
+				nOn++
+				d := dst
+				if !excluded(cp, nil, func(e *an.Expr) bool { return sameValue(e, d) }) {
+					okSite = false
+				}
+			}
+			c.R.Check(okSite && nOn > 0, "R-C07-5", c.fname(s.Fn)+":send-call-suppressed-in-unicast-only", c.fname(s.Fn), c.pos(s.Pos()),
+				fmt.Sprintf("send() does not suppress multicast in unicast-only mode itself; this caller establishes ¬UnicastOnly or a unicast destination on every path: %v", okSite),
+				"every transmission happens with UnicastOnly false or a non-multicast destination", "a unicast-only interface transmits to a multicast destination")
+		}
+	}
 	// some path must carry the suppression atoms, otherwise the rule above is vacuous
 	c.R.Check(nW >= 1, "R-C07-5", fn+":write-sites", fn, c.pos(send.Pos()), fmt.Sprintf("%d WriteTo path(s)", nW), ">= 1", "anchor-missing")
 	// only Advertiser.send writes to the connection
